@@ -770,3 +770,10 @@ fire('C13', 'continuous-release-cancels-only-when-accumulating (seed C13-a)', 'C
                               'if self.accumulating:\n    self.belt.interrupt_and_resume_all_delayed_interrupt_processes()'))
 fire('C13', 'continuous-delayed-interrupt-untracked', 'C13.R6', 'belt_store.py::BeltStore.handle_new_item_during_interruption',
      lambda p: M.delete_stmt(p, S_BELT, 'BeltStore.handle_new_item_during_interruption', M.assign_to('self.active_delayed_interrupt_processes[item_id]')))
+silent('C07', 'prs-put-validates-by-membership-and-owner',
+       lambda p: M.chain(p,
+                         lambda q: M.replace_node(q, S_PRS, 'ReservablePriorityReqStore._do_put', M.assign_to('reserved_event'),
+                                                  'reserved_event = put_event if (put_event in self.reservations_put and put_event.requesting_process == self.env.active_process) else None')))
+fire('C07', 'prs-put-removes-before-owner-check (seed C07-a)', 'C07.R3', 'ReservablePriorityReqStore.put',
+     lambda p: M.replace_node(p, S_PRS, 'ReservablePriorityReqStore._do_put', M.assign_to('reserved_event'),
+                              'self.reservations_put.remove(put_event) if put_event in self.reservations_put else None\nreserved_event = put_event if put_event.requesting_process == self.env.active_process else None'))
